@@ -425,6 +425,7 @@ SVC = [
     (("attend", "deregister_consumer_2"), ("quick", "thorough"), False),
     (("attend", "if4_deregister_consumer_2"), ("quick", "thorough"), False),
     (("attend", "attend'"), ("quick", "thorough"), True),
+    (("attend", "register_consumer_2", "if4_subscribe_N1"), ("quick", "thorough"), True),
     (("attend", "deregister_consumer_2", "subscribe_N1"), ("thorough",), True),
     (("attend", "unsubscribe_S1", "subscribe_N1"), ("thorough",), True),
     (("unsubscribe_S1", "unsubscribe_S2", "attend"), ("thorough",), True),
@@ -519,6 +520,17 @@ def _svc_vc(ctx, combo, small=False):
         return bad, f"concurrent {combo} from {vals}: responses {got[0]}, subscriptions {got[1][0]}, consumers {got[1][1]}, providers {got[1][2]}, notified {got[2]} {errs}; " + \
             ("explained by no reference execution (operations atomic, an attendance pass as a sequence of atomic per-subscription steps)" if not explained
              else f"explained by {explained[0]}") + f" (switch points {sched.trace})"
+    def replay_kept(t, b):
+        def rp(vals):
+            R, res, sched = run_real(vals)
+            if sched.failed:
+                return False, "replay scheduler: " + sched.failed
+            nm = [n for n in combo if base(n) == b][0]
+            ok_ = (res[nm][1] == int(LC.SubscribeDataobjectsResult.SUCCESSFUL)) if b.startswith("if4_") else True
+            kept = t in R.state()[0]
+            return bool(ok_ and not kept), f"concurrent {combo} from {vals}: subscription {t} accepted={ok_}, consumers {R.state()[1]}, stored afterwards={kept} " \
+                f"(subscriptions {R.state()[0]}, switch points {sched.trace})"
+        return rp
     feasible(ctx, il, tag + "-some-schedule")
     # every operation of the combination can take effect (otherwise the comparison with the reference executions says nothing about it)
     fsub = il.final(st["So"], "subscriptions")
@@ -549,10 +561,32 @@ def _svc_vc(ctx, combo, small=False):
             if old_:
                 feasible(ctx, il, f"{tag}-attend-can-remove", z3.And(st["has"][old_[0]], z3.Not(in_final(old_[0]))))
     solve(ctx, il, tag + "-no-exception", exc, vars=vars_, replay=replay)
-    solve(ctx, il, tag + "-linearizable", il.not_linearizable(obs, starts_unit=starts_unit), vars=vars_, replay=replay,
-          desc="responses, subscription list, registries and callback invocations of the concurrent run equal those of some reference execution "
-               "(every operation atomic; an attendance pass = its per-subscription steps, each atomic)")
-    ctx.bound(f"{tag}: {il.n_reference_orders} reference executions")
+    if ctx.tier == "quick" and len(combo) >= 3 and "attend" in [base(n) for n in combo]:
+        ctx.bound(f"{tag}: the comparison with the reference executions of this three-actor combination with an attendance pass takes minutes and is asked in the "
+                  "thorough tier only; the quick tier decides exception freedom and the subscription-retention statement")
+    else:
+        solve(ctx, il, tag + "-linearizable", il.not_linearizable(obs, starts_unit=starts_unit), vars=vars_, replay=replay,
+              desc="responses, subscription list, registries and callback invocations of the concurrent run equal those of some reference execution "
+                   "(every operation atomic; an attendance pass = its per-subscription steps, each atomic)")
+        ctx.bound(f"{tag}: {il.n_reference_orders} reference executions")
+    # "subscriptions are neither lost": a subscription that was accepted, whose consumer nobody deregisters and which nobody cancels, is still stored
+    # at the end - also when an attendance pass (whose reference executions are only per-step atomic) runs at the same time
+    bases = [base(n) for n in combo]
+    for nm in combo:
+        b = base(nm)
+        if "subscribe_N" not in b:
+            continue
+        t = b.split("_")[-1]
+        app = SUB_APP[t]
+        if any(x in bases for x in (f"deregister_consumer_{app}", f"if4_deregister_consumer_{app}", "unsubscribe_" + t)):
+            continue
+        if b.startswith("if4_"):
+            res = _svc_obs(E, il.rets[nm][0], "result")[0]
+            accepted = res == int(LC.SubscribeDataobjectsResult.SUCCESSFUL)
+        else:
+            accepted = st["reg"][app] if f"register_consumer_{app}" not in bases else FALSE
+        solve(ctx, il, f"{tag}-{b}-accepted-subscription-kept", z3.And(accepted, z3.Not(in_final(t))), vars=vars_, replay=replay_kept(t, b),
+              desc="an accepted subscription of a consumer that stays registered is in the subscription list afterwards")
     no_deadlock(ctx, il, tag)
     bounds_ok(ctx, il, tag)
     note_blocks(ctx, il, " || ".join(combo) + " on LDMService / IF.LDM.3 / IF.LDM.4 (subscription universe " + ",".join(subs) + ")")
@@ -759,7 +793,8 @@ def _maint_vc(ctx, combo):
         und = il.und_names if order is None else set()
         gate_object(R.D, {"database": "_lock", "_next_id": "_lock"}, sched, und)
         gate_object(R.M, {"new_data_recieved_flag": "data_containers_lock"}, sched, und)
-        with mock.patch.object(TimeService, "time", staticmethod(lambda: _now_float(vals))):
+        with mock.patch.object(TimeService, "time", staticmethod(lambda: _now_float(vals))), \
+                mock.patch.object(LC.RequestDataObjectsReq, "filter_out_by_data_object_type", staticmethod(lambda objs, types: objs)):
             res, sched = run_schedule(sched.order, {nm: (lambda nm=nm: MAINT_OPS[base(nm)][2](R)) for nm in combo}, sched)
         return R, res, sched
 
@@ -844,3 +879,183 @@ def _register_maint_vcs():
 
 
 _register_maint_vcs()
+
+
+# ---------------------------------------------------------------------------------------------- Y4 IF.LDM.3 / IF.LDM.4 data path over service, maintenance and back-end
+def _full_env(E, st):
+    """IF.LDM.3 / IF.LDM.4 on an LDMService whose maintenance is the threaded one over the in-memory back-end: arbitrary store and registries"""
+    M, Mo = _maint_env(E, st)
+    st2 = {}
+    S, So = _svc_env(E, st2, subs=["S1"])
+    So.fields["ldm_maintenance"] = Mo
+    E.stubs.pop(LC.RequestDataObjectsResp, None)          # here the response object is the subject
+    E.stubs.pop(LDMService.search_data, None)
+    E.stubs.pop(LC.TimestampIts.initialize_with_utc_timestamp_seconds, None)          # the garbage collection reads the real clock conversion (TimeService.time is the stub)
+    for k in ("S", "So", "if3o", "if4o", "reg", "preg", "if_locks"):
+        st[k] = st2[k]
+    st["vars"] = dict(st["vars"], **{k: v for k, v in st2["vars"].items() if "registered" in k})
+    return M, Mo, S, So
+
+
+class _RealFull:
+    def __init__(self, vals):
+        self.maint = _RealMaint(vals)
+        self.M, self.D = self.maint.M, self.maint.D
+        self.S = LDMService(self.M)
+        self.if3, self.if4 = InterfaceLDM3(self.S), InterfaceLDM4(self.S)
+        for a in APPS:
+            if vals.get(f"consumer_{a}_registered"):
+                self.S.data_consumer_its_aid.add(a)
+            if vals.get(f"provider_{a}_registered"):
+                self.S.data_provider_its_aid.add(a)
+        self.vals = vals
+
+    def state(self):
+        g = object.__getattribute__
+        return self.maint.state() + (sorted(g(self.S, "data_consumer_its_aid")), sorted(g(self.S, "data_provider_its_aid")))
+
+
+def _add_req(R):
+    return type("Req", (), {"application_id": APPS[0], "to_dict": lambda self: _real_rec(R.vals, "Rn")})()
+
+
+FULL_OPS = {
+    "if3_add": (InterfaceLDM3.add_provider_data, lambda st: [st["if3o"], Obj(LC.AddDataProviderReq, dict(application_id=APPS[0]))],
+                lambda R: R.if3.add_provider_data(_add_req(R)).data_object_id, "id"),
+    "if4_request": (InterfaceLDM4.request_data_objects,
+                    lambda st: [st["if4o"], Obj(LC.RequestDataObjectsReq, dict(application_id=APPS[0], data_object_type=(2,), priority=None, order=None, filter=None))],
+                    lambda R: (lambda r: (int(r.result), tuple(r.data_objects)))(R.if4.request_data_objects(
+                        LC.RequestDataObjectsReq(application_id=APPS[0], data_object_type=(), priority=None, order=None, filter=None))), "resp"),
+    "if3_deregister_provider": (InterfaceLDM3.deregister_data_provider, lambda st: [st["if3o"], Obj(LC.DeregisterDataProviderReq, dict(application_id=APPS[0]))],
+                                lambda R: int(R.if3.deregister_data_provider(LC.DeregisterDataProviderReq(APPS[0])).result), "result"),
+    "if4_deregister_consumer": (InterfaceLDM4.deregister_data_consumer, lambda st: [st["if4o"], Obj(LC.DeregisterDataConsumerReq, dict(application_id=APPS[0]))],
+                                lambda R: int(R.if4.deregister_data_consumer(LC.DeregisterDataConsumerReq(APPS[0])).ack), "ack"),
+    "gc": (LDMMaintenanceThread.collect_trash, lambda st: [st["Mo"]], lambda R: R.M.collect_trash(), "drop"),
+    "del_a": (LDMMaintenanceThread.del_provider_data, lambda st: [st["Mo"], st["recs"][0]], lambda R: R.M.del_provider_data(_real_rec(R.vals, "Ra")), "drop"),
+}
+
+FULL = [
+    (("if3_add", "if4_request", "if3_deregister_provider"), ("quick", "thorough")),
+    (("if3_add", "if3_add'", "if4_request"), ("quick", "thorough")),
+    (("if4_request", "if4_deregister_consumer", "del_a"), ("quick", "thorough")),
+    (("if4_request", "gc", "if3_add"), ("quick", "thorough")),
+    (("if4_request", "if4_request'", "if3_add"), ("thorough",)),
+]
+
+
+def _full_vc(ctx, combo):
+    st = {}
+    tag = "Y4[" + "|".join(combo) + "]"
+    base = lambda nm: nm.rstrip("'")
+    names = [base(n) for n in combo]
+
+    def build(E):
+        st.clear()
+        M, Mo, S, So = _full_env(E, st)
+        extra = [(l, n) for l, n in st["if_locks"] if l is not None]
+        return dict(threads=[(nm, FULL_OPS[base(nm)][0], list(FULL_OPS[base(nm)][1](st))) for nm in combo],
+                    locks=[M.data_containers_lock, st["D"]._lock, S._lock] + [l for l, n in extra],
+                    lock_names=["data_containers_lock", "_lock(db)", "_lock(service)"] + [n for l, n in extra])
+    il = Ilv(build, unroll=5).run()
+    il.cons = il.encode()
+    E = il.E
+    shape = st["shape"]
+    obs, resp_lists = [], {}
+    for nm in combo:
+        kind = FULL_OPS[base(nm)][3]
+        r = il.rets[nm][0]
+        if kind == "id":
+            obs.append(E.tok(E.getattr(r, "data_object_id", TRUE)))
+        elif kind in ("result", "ack"):
+            obs += _svc_obs(E, r, kind)
+        elif kind == "resp":
+            obs += _svc_obs(E, r, "result")
+            fl = ListS(4, shape).flat(E, E.getattr(r, "data_objects", TRUE))
+            resp_lists[nm] = fl
+            obs += fl
+    fdb = il.final(st["Do"], "database")
+    obs += fdb + il.final(st["Do"], "_next_id") + il.final(st["So"], "data_consumer_its_aid") + il.final(st["So"], "data_provider_its_aid")
+    exc = z3.Or(*[c for nm in combo for c, k in il.rets[nm][1]]) if any(il.rets[nm][1] for nm in combo) else FALSE
+    vars_ = st["vars"]
+
+    def starts_unit(b):
+        return base(b.thread) == "gc" and b.fn in ("get_all_data_containers", "del_provider_data")
+
+    def unit_start_real(name, what):
+        return base(name) == "gc" and what.startswith("acquire data_containers_lock")
+
+    def run_real(vals, order=None):
+        from unittest import mock
+        R = _RealFull(vals)
+        sched = Scheduler(vals["schedule"]) if order is None else UnitScheduler(order, unit_start_real)
+        und = il.und_names if order is None else set()
+        gate_object(R.D, {"database": "_lock", "_next_id": "_lock"}, sched, und)
+        gate_object(R.M, {"new_data_recieved_flag": "data_containers_lock"}, sched, und)
+        gate_object(R.S, {"subscriptions": "_lock", "last_checked_subscriptions_time": "_lock", "data_consumer_its_aid": "_lock", "data_provider_its_aid": "_lock"}, sched, und)
+        for o, n in ((R.if3, "if3._deregistration_lock"), (R.if4, "if4._deregistration_lock")):
+            if hasattr(o, "_deregistration_lock"):
+                o._deregistration_lock = GateLock(o._deregistration_lock, sched, n)
+        with mock.patch.object(TimeService, "time", staticmethod(lambda: _now_float(vals))), \
+                mock.patch.object(LC.RequestDataObjectsReq, "filter_out_by_data_object_type", staticmethod(lambda objs, types: objs)):
+            res, sched = run_schedule(sched.order, {nm: (lambda nm=nm: FULL_OPS[base(nm)][2](R)) for nm in combo}, sched)
+        return R, res, sched
+
+    def view(R, res):
+        return ({nm: res[nm][1] for nm in combo if FULL_OPS[base(nm)][3] != "drop"}, R.state())
+
+    def replay(vals):
+        R, res, sched = run_real(vals)
+        if sched.failed:
+            return False, "replay scheduler: " + sched.failed
+        errs = [f"{n} raised {r[1]!r}" for n, r in res.items() if r[0] == "raised"]
+        got = view(R, res)
+        explained, seen = [], []
+        for units in il.reference_orders(starts_unit):
+            order = [u[0].thread for u in units]
+            if order in seen:
+                continue
+            seen.append(order)
+            R2, res2, s2 = run_real(vals, order)
+            if s2.failed:
+                raise RuntimeError("reference execution did not complete: " + s2.failed)
+            if view(R2, res2) == got:
+                explained.append(order)
+                break
+        bad = bool(errs) or not explained
+        return bad, f"concurrent {combo} from {vals}: responses {got[0]}, final store {got[1][0]}, allocator {got[1][1]}, consumers {got[1][3]}, providers {got[1][4]} {errs}; " + \
+            ("explained by no reference execution" if not explained else f"explained by {explained[0]}") + f" (switch points {sched.trace})"
+    preg, reg = st["preg"][APPS[0]], st["reg"][APPS[0]]
+    feasible(ctx, il, tag + "-some-schedule")
+    if "if3_add" in names:
+        rid = obs[[i for i, nm in enumerate(combo) if base(nm) == "if3_add"][0]] if False else None
+        feasible(ctx, il, tag + "-add-can-store", z3.And(preg, fdb[8]))
+    if "if4_request" in names:
+        nm0 = [n for n in combo if base(n) == "if4_request"][0]
+        feasible(ctx, il, tag + "-request-can-return-an-object", z3.And(reg, resp_lists[nm0][0] >= 1))
+    solve(ctx, il, tag + "-no-exception", exc, vars=vars_, replay=replay)
+    if "gc" not in names:
+        solve(ctx, il, tag + "-linearizable", il.not_linearizable(obs, inputs=st["inputs"]), vars=vars_, replay=replay,
+              desc="responses (identifier, result codes, returned objects), final store, allocator and registries equal those of some serial order of the operations")
+        ctx.bound(f"{tag}: {il.n_reference_orders} reference executions")
+    # a query returns only objects that were stored at some instant: every returned object is one of the written ones, none twice
+    for nm, fl in resp_lists.items():
+        for i in range(4):
+            o = 1 + 3 * i
+            legal = z3.Or(*[z3.And(*[fl[o + j] == st["leaves"][r][j] for j in range(3)]) for r in range(4)])
+            solve(ctx, il, f"{tag}-{nm}-returned-object-{i}-is-a-stored-one", z3.And(fl[0] > i, z3.Not(legal)), vars=vars_, replay=replay)
+    no_deadlock(ctx, il, tag)
+    bounds_ok(ctx, il, tag)
+    note_blocks(ctx, il, " || ".join(combo) + " through IF.LDM.3 / IF.LDM.4, LDMService, LDMMaintenanceThread and DictionaryDataBase")
+    ctx.bound("store of two records (each present or not) + one added; provider / consumer registries over two ITS-AIDs; operations: " + " || ".join(combo))
+    ctx.stub("as Y2 and Y3: one symbolic clock instant, to_dict returns the added record, type selection is the identity, area sweep is a no-op")
+
+
+def _register_full_vcs():
+    for combo, tiers in FULL:
+        def fn(ctx, combo=combo):
+            _full_vc(ctx, combo)
+        fn.__doc__ = "IF.LDM.3 / IF.LDM.4 data path under concurrency: " + " || ".join(combo)
+        vc("C16", "Y4-interface-data-path[" + "|".join(combo) + "]", tiers)(fn)
+
+
+_register_full_vcs()
